@@ -998,6 +998,7 @@ impl<T: Serialize + for<'de> Deserialize<'de> + Clone + PartialEq + Send + Sync 
     /// Recover from WAL files
     async fn recover_from_wal(&self, stats: &mut RecoveryStats) -> Result<()> {
         let wal_files = self.find_wal_files()?;
+        let live_name = format!("state.{WAL_EXTENSION}");
 
         for wal_path in wal_files {
             match self.replay_wal_file(&wal_path, stats).await {
@@ -1010,9 +1011,44 @@ impl<T: Serialize + for<'de> Deserialize<'de> + Clone + PartialEq + Send + Sync 
                     stats.data_loss_detected = true;
                 }
             }
+
+            // The live log is appended to after recovery. A record torn by the
+            // crash must be cut off first, otherwise every later record is framed
+            // against the leftover bytes and becomes unreadable.
+            if wal_path.file_name().and_then(|n| n.to_str()) == Some(live_name.as_str())
+                && let Some(offset) = Self::find_torn_tail(&wal_path)
+            {
+                let file = OpenOptions::new().write(true).open(&wal_path)?;
+                file.set_len(offset)?;
+                file.sync_all()?;
+            }
         }
 
         Ok(())
+    }
+
+    /// Offset at which an incomplete trailing record starts, if the file ends in one
+    fn find_torn_tail(path: &Path) -> Option<u64> {
+        let mut file = File::open(path).ok()?;
+        let file_len = file.metadata().ok()?.len();
+        let mut position = 0u64;
+        loop {
+            let remaining = file_len - position;
+            if remaining == 0 {
+                return None;
+            }
+            if remaining < 4 {
+                return Some(position);
+            }
+            let mut size_bytes = [0u8; 4];
+            file.read_exact(&mut size_bytes).ok()?;
+            let entry_size = u32::from_le_bytes(size_bytes) as u64;
+            if entry_size > remaining - 4 {
+                return Some(position);
+            }
+            position += 4 + entry_size;
+            file.seek(std::io::SeekFrom::Start(position)).ok()?;
+        }
     }
 
     /// Replay single WAL file
